@@ -204,9 +204,6 @@ pub enum Res {
 }
 
 impl Res {
-    pub fn is_err(&self) -> bool {
-        matches!(self, Res::Err(_))
-    }
     pub fn short(&self) -> String {
         match self {
             Res::Got(None) => "None".into(),
